@@ -495,6 +495,16 @@ class Light(Device):
             return None, self.white.brightness.value
         return cast(tuple[int, int, int], colors), self.white.brightness.value
 
+    @staticmethod
+    def _send_brightness_values(*values: tuple[_SwitchAndBrightness, int]) -> None:
+        """Send brightness values of individual colors - all of them or, if one is refused, none."""
+        payloads = [
+            (color.brightness, color.brightness.to_knx(value))
+            for color, value in values
+        ]
+        for remote_value, payload in payloads:
+            remote_value.send_raw(payload)
+
     async def set_color(
         self, color: tuple[int, int, int], white: int | None = None
     ) -> None:
@@ -512,10 +522,12 @@ class Light(Device):
                 if all(
                     c.brightness.initialized for c in self._iter_individual_colors()
                 ):
-                    self.red.brightness.set(color[0])
-                    self.green.brightness.set(color[1])
-                    self.blue.brightness.set(color[2])
-                    self.white.brightness.set(white)
+                    self._send_brightness_values(
+                        (self.red, color[0]),
+                        (self.green, color[1]),
+                        (self.blue, color[2]),
+                        (self.white, white),
+                    )
                     return
             logger.warning("RGBW not supported for device %s", self.get_name())
         else:
@@ -526,9 +538,11 @@ class Light(Device):
                 if all(
                     c.brightness.initialized for c in (self.red, self.green, self.blue)
                 ):
-                    self.red.brightness.set(color[0])
-                    self.green.brightness.set(color[1])
-                    self.blue.brightness.set(color[2])
+                    self._send_brightness_values(
+                        (self.red, color[0]),
+                        (self.green, color[1]),
+                        (self.blue, color[2]),
+                    )
                     return
             logger.warning("Colors not supported for device %s", self.get_name())
 
@@ -551,17 +565,18 @@ class Light(Device):
         if not self.supports_hs_color:
             logger.warning("HS-color not supported for device %s", self.get_name())
             return
-        value_sent = False
-        if (hue := hs_color[0]) != self.hue.value:
-            self.hue.set(hue)
-            value_sent = True
-        if (saturation := hs_color[1]) != self.saturation.value:
-            self.saturation.set(saturation)
-            value_sent = True
-        if not value_sent:
-            # at least one value shall be sent to enable turn-on by hs_color
-            self.hue.set(hue)
-            self.saturation.set(saturation)
+        hue, saturation = hs_color
+        # convert both before one is sent - if a value is refused, nothing shall be sent
+        hue_payload = self.hue.to_knx(hue)
+        saturation_payload = self.saturation.to_knx(saturation)
+        hue_changed = hue != self.hue.value
+        saturation_changed = saturation != self.saturation.value
+        # at least one value shall be sent to enable turn-on by hs_color
+        send_all = not (hue_changed or saturation_changed)
+        if hue_changed or send_all:
+            self.hue.send_raw(hue_payload)
+        if saturation_changed or send_all:
+            self.saturation.send_raw(saturation_payload)
 
     def _xyy_color_from_rv(self, xyy_color: XYYColor) -> None:
         """Update the current xyY-color from RemoteValue (Callback)."""
